@@ -1,4 +1,4 @@
-CONSTANTS KindDesc <- Desc_dyn_dyn Shapes <- ShapesQuick MaxHist = 4
+CONSTANTS KindDesc <- Desc_legacy_hybrid Shapes <- ShapesQuick MaxHist = 4
 SPECIFICATION Spec
 VIEW View
 INVARIANT Inv
